@@ -3,7 +3,8 @@ PROP = {'title': 'Algorithm and container helpers equal their straightforward re
  'engine': 'E',
  'technique': 'exhaustive enumeration of all sequences over {0,1,2} up to length 7, all strings over {a,b,#} up to length 8, all maps '
               'over 6 keys, with all predicates / element functions on the 3-element domain, for every source kind, against hand-written '
-              'loops (results, visit order, call counts, iterator positions, reference identity)',
+              'loops (results, visit order, call counts, iterator positions, reference identity); values / keys / indices / delimiters / '
+              'states of a type other than the element type, including values not representable in it',
  'level_text': 'Every input of the stated finite domains is run through the real templates and compared with a loop-based reference that '
                'shares no code with fcppt: all 3280 sequences (quick: 364) x all 27 element functions / 8 predicates / 64 partial functions / every '
                'break position, for vector, list, deque, set, multiset, map, string, fcppt array, tuple, mpl list, int and enum ranges and '
@@ -15,18 +16,33 @@ PROP = {'title': 'Algorithm and container helpers equal their straightforward re
                'run with the free (term-building) function, which fixes the result for every function by parametricity',
  'binaries': [{'name': 'C16',
                'sources': ['harness/C16.cpp', 'harness/C16_algorithm.cpp', 'harness/C16_algorithm2.cpp', 'harness/C16_container.cpp',
-                           'harness/C16_array_tuple.cpp'],
+                           'harness/C16_array_tuple.cpp', 'harness/C16_hetero.cpp'],
                'libs': [], 'flavour': 'asan'}],
  'compile_probes': [{'name': 'array_append_lvalue', 'source': 'harness/C16_probe_array_append_lvalue.cpp'},
                     {'name': 'array_push_back_lvalue', 'source': 'harness/C16_probe_array_push_back_lvalue.cpp'},
                     {'name': 'array_join_lvalue', 'source': 'harness/C16_probe_array_join_lvalue.cpp'},
-                    {'name': 'tuple_concat_lvalue', 'source': 'harness/C16_probe_tuple_concat_lvalue.cpp'}],
+                    {'name': 'tuple_concat_lvalue', 'source': 'harness/C16_probe_tuple_concat_lvalue.cpp'},
+                    {'name': 'hetero_equal_range_binary_search', 'source': 'harness/C16_probe_hetero.cpp', 'flags': ['-DC16_PROBE_KIND=1']},
+                    {'name': 'hetero_contains_find_opt_find_by_opt', 'source': 'harness/C16_probe_hetero.cpp', 'flags': ['-DC16_PROBE_KIND=2']},
+                    {'name': 'hetero_index_of', 'source': 'harness/C16_probe_hetero.cpp', 'flags': ['-DC16_PROBE_KIND=3']},
+                    {'name': 'hetero_remove', 'source': 'harness/C16_probe_hetero.cpp', 'flags': ['-DC16_PROBE_KIND=4']},
+                    {'name': 'hetero_fold_fold_break', 'source': 'harness/C16_probe_hetero.cpp', 'flags': ['-DC16_PROBE_KIND=5']},
+                    {'name': 'hetero_at_optional_index', 'source': 'harness/C16_probe_hetero.cpp', 'flags': ['-DC16_PROBE_KIND=6']},
+                    {'name': 'hetero_find_opt_mapped_key', 'source': 'harness/C16_probe_hetero.cpp', 'flags': ['-DC16_PROBE_KIND=7']},
+                    {'name': 'hetero_get_or_insert_key', 'source': 'harness/C16_probe_hetero.cpp', 'flags': ['-DC16_PROBE_KIND=8']},
+                    {'name': 'hetero_string_delimiters', 'source': 'harness/C16_probe_hetero.cpp', 'flags': ['-DC16_PROBE_KIND=9']}],
  'deadline': {'quick': 240, 'thorough': 1200},
  'rule': 'nested loops over explicit domains: every sequence over {0,1,2} up to the length bound (as vector, list, deque, set, multiset, '
          'string, fcppt array, tuple, sized / unsized custom range, passed as const lvalue, lvalue and rvalue) x every parameter of the '
          'function (27 element functions, 8 predicates, 64 partial functions, every value -1..3, every break position, every removal '
          'mask); every string over {a,b,#} x 3 delimiters; every map with keys in 0..5 and values in {0,1,2}; every pair of subsets of a '
-         '7-element universe; a case is one (instantiation, input, parameter) tuple and is non-trivial when the range has at least two '
+         '7-element universe; heterogeneous types: every sequence up to length 4 (thorough 5) over a 4-letter alphabet of unsigned char / '
+         'short / int elements (vector, deque, list) x every value of type int / long long / double / short / unsigned char from a '
+         'boundary list (-1, 0, 1, 2, 2.5, 255, 256, 258, 65535, 65536, 2^32-1, 2^32+5, type minima/maxima, ...) for equal_range, '
+         'binary_search, contains, find_opt, index_of, find_by_opt, remove, fold and fold_break (state of the other type); at_optional '
+         'with 7 index types; find_opt_iterator / find_opt / find_opt_mapped / get_or_insert with keys of another type on maps with and '
+         'without a transparent comparator (int keys vs short / long long / double, string keys vs string_view / char const*); '
+         'join_strings / split_string with delimiters of another type; a case is one (instantiation, input, parameter) tuple and is non-trivial when the range has at least two '
          'elements / the early stop, removal, duplicate or boundary that the function is about actually occurs (per-function predicate '
          'in the harness sources)',
  'assumptions': ['std::equal_range precondition: cases where the sequence is not partitioned with respect to the searched value are skipped '
@@ -41,4 +57,10 @@ PROP = {'title': 'Algorithm and container helpers equal their straightforward re
                  'lvalue arguments must be left unchanged (checked with std::string elements); that rvalue arguments are really moved from is '
                  'not asserted',
                  'an exception escaping from an fcppt call is recorded as crash:<fn>:terminate for the announced case',
-                 'index_map::get: insert() is expected to be called once per missing element, results stored in index order']}
+                 'index_map::get: insert() is expected to be called once per missing element, results stored in index order',
+                 'heterogeneous values are compared with the elements exactly as given (exact comparison in long double = the usual '
+                 'arithmetic conversions for the types used), never after narrowing to the element type; where the documented signature '
+                 'itself converts the argument (remove: const_reference, get_or_insert: key_type, split_string: value_type delimiter, '
+                 'std::map::find without a transparent comparator) only values representable in the target type are used',
+                 'every heterogeneous instantiation is also a compile probe (compile:hetero_<family>): a change that makes it ill-formed '
+                 'is reported as a violation']}
